@@ -286,10 +286,139 @@ let handle05_w (hf : string) (rest : string list) : string =
       else handle05 ("Q" :: hf :: join_hash [ qenc; rowt; oflat ])
   | _ -> "bad line"
 
+(* ---- S: column names (Spec/ColumnsSpec.v) ----
+   S <hexsql> # <query> # <row> # <fresh> # <used> # <async>     results: none | row k=v .. | e | PANIC | dup *)
+let show_names (l : n list list) : string = "[" ^ String.concat " " (List.map hex_of_bytes l) ^ "]"
+let ascii_names (l : n list list) : string =
+  String.concat " " (List.map (fun b -> "`" ^ String.concat "" (List.map (fun x ->
+    let c = Util.int_of_n x in if c >= 32 && c < 127 then String.make 1 (Char.chr c) else Printf.sprintf "\\x%02x" c) b) ^ "`") l)
+let handle05_s (rest : string list) : string =
+  match Win.split_hash rest with
+  | [ _; qenc; rowt; fresh; used; async ] ->
+      let q = p_query qenc in let row = parse_row rowt in
+      let star = List.mem IStar q.q_items in
+      let cols () =
+        (match fresh with
+         | "row" :: kvs ->
+             let obs = List.map fst (cells_of kvs) in
+             let want = sel_columns q row in
+             (match chk_columns want obs with
+              | None -> None
+              | Some _ ->
+                  let missing = cols_missing want obs and extra = cols_extra want obs in
+                  let rowkeys = List.map fst row in
+                  (* F39: the items listed after * are dropped, the fields of the row are all there *)
+                  if star && List.length q.q_items > 1 && extra = [] && List.for_all (fun k -> not (List.mem k rowkeys)) missing
+                  then Some "chk columns star_with_items_dropped"
+                  else Some ("chk columns_exact " ^ (if star then "star" else "items") ^ " missing=" ^ show_names missing ^ " extra=" ^ show_names extra
+                             ^ " (missing: " ^ ascii_names missing ^ "; not selected: " ^ ascii_names extra ^ ")"))
+         | _ -> None) in
+      (* F39 when an item after * re-uses the name of a field of the row: the column set is the same, the
+         result is the one of SELECT * alone *)
+      let star_only () =
+        star && List.length q.q_items > 1 &&
+        (match cmp_direct (direct { q with q_items = [ IStar ] } row) fresh, fresh with DSame, "row" :: _ -> true | _ -> false) in
+      (match cols () with
+       | Some c -> c
+       | None ->
+           (match cmp_direct (direct q row) fresh with
+            | DDiffer m -> if star_only () then "chk columns star_with_items_dropped" else "diff direct " ^ m
+            | c ->
+                if fresh <> used then "chk history_dependent fresh=" ^ String.concat " " fresh ^ " used=" ^ String.concat " " used
+                else if fresh <> async then "chk sync_async_differ sync=" ^ String.concat " " fresh ^ " sink=" ^ String.concat " " async
+                else (match c, fresh with DSame, "row" :: _ -> "ok nt" | _ -> "ok")))
+  | _ -> "bad line"
+
+(* ---- QI: select items with quoted parts (Model/SelectItems.v) ----
+   QI <hexsql> # <n> (P <hextext> <hexalias|~> | L <quote byte> <hexcontent> <hexalias|~>)* w0|w1 expr # <row> # <fresh> # <used> # <async> *)
+let p_squery (t : string list) : squery =
+  match t with
+  | n :: r ->
+      let al a = if a = "~" then None else Some (bytes_of_hex a) in
+      let rec items k r = if k = 0 then ([], r) else
+          (match r with
+           | "P" :: text :: a :: r -> let (l, r) = items (k - 1) r in (SPath (bytes_of_hex text, al a) :: l, r)
+           | "L" :: q :: c :: a :: r -> let (l, r) = items (k - 1) r in (SLit (Util.n_of_int (int_of_string q), bytes_of_hex c, al a) :: l, r)
+           | _ -> failwith "item expected") in
+      let (l, r) = items (int_of_string n) r in
+      let w = (match r with "w0" :: _ -> None | "w1" :: r -> Some (fst (p_expr r)) | _ -> failwith "bad where") in
+      { sq_items = l; sq_where = w }
+  | [] -> failwith "empty query"
+let has_byte (c : int) (b : n list) : bool = List.exists (fun x -> Util.int_of_n x = c) b
+let rec after_colon (b : n list) : n list option =
+  match b with [] -> None | x :: r -> if Util.int_of_n x = 58 then Some r else after_colon r
+let handle05_qi (rest : string list) : string =
+  match Win.split_hash rest with
+  | [ _; qenc; rowt; fresh; used; async ] ->
+      let q = p_squery qenc in
+      (match jvalue_of rowt with
+       | JMap row ->
+           let is_row o = (match o with m :: _ when String.length m > 0 && m.[0] = 'M' -> true | _ -> false) in
+           let cells o = (match jvalue_of o with JMap c -> c | _ -> failwith "observed is not a row") in
+           (* 1. the statement: exactly the columns the items name *)
+           let cols () =
+             if not (is_row fresh) then None else
+             let obs = List.map fst (cells fresh) and want = sq_columns q in
+             (match chk_columns want obs with
+              | None -> None
+              | Some _ ->
+                  let missing = cols_missing want obs and extra = cols_extra want obs in
+                  (* a literal without alias whose content holds ':': the text after its first ':' shows up as a column *)
+                  let bogus = List.filter_map (fun i -> match i with SLit (_, c, None) -> after_colon c | _ -> None) q.sq_items in
+                  let tag = if missing = [] && List.for_all (fun k -> List.mem k bogus) extra then "unaliased_colon_literal" else "other" in
+                  Some ("chk columns_exact " ^ tag ^ " missing=" ^ show_names missing ^ " extra=" ^ show_names extra
+                        ^ " (missing: " ^ ascii_names missing ^ "; not selected: " ^ ascii_names extra ^ ")")) in
+           (* 2. the model *)
+           let cmp o : ncmp =
+             (match sdirect q row, o with
+              | SDUnm, _ -> NUnmodelled
+              | SDNone, [ "none" ] -> NSame false
+              | SDPanic, [ "panic" ] -> NSame true
+              | SDRow r, _ when is_row o ->
+                  let oc = cells o in
+                  if List.length oc = List.length r &&
+                     List.for_all (fun (k, c) -> match List.assoc_opt k oc with
+                       | Some v -> (match c with CVal w -> j_same w v | CUnm -> true)
+                       | None -> false) r
+                  then NSame true else NDiffer ("model=" ^ show_cells r)
+              | SDNone, _ -> NDiffer "model=none"
+              | SDPanic, _ -> NDiffer "model=panic"
+              | SDRow r, _ -> NDiffer ("model=" ^ show_cells r)) in
+           (* a literal's column must hold the literal's content *)
+           let litval () =
+             if not (is_row fresh) then None else
+             let oc = cells fresh in
+             let names = List.map si_name q.sq_items in
+             List.find_map (fun i -> match i with
+               | SLit (_, c, _) when List.length (List.filter (fun x -> x = si_name i) names) = 1 ->
+                   (match List.assoc_opt (si_name i) oc with
+                    | Some v when not (j_same (JS (VStr c)) v) ->
+                        Some ("chk literal_value " ^ (if has_byte 96 c then "backquote_in_literal" else "other")
+                              ^ " column=" ^ hex_of_bytes (si_name i) ^ " want=s" ^ hex_of_bytes c ^ " got=" ^ show_j v)
+                    | _ -> None)
+               | _ -> None) q.sq_items in
+           (match cols () with
+            | Some c -> c
+            | None ->
+            match litval () with
+            | Some c -> c
+            | None ->
+                (match cmp fresh with
+                 | NDiffer m -> "diff sdirect " ^ m
+                 | c ->
+                     if fresh <> used then "chk history_dependent fresh=" ^ String.concat " " fresh ^ " used=" ^ String.concat " " used
+                     else if fresh <> async then "chk sync_async_differ sync=" ^ String.concat " " fresh ^ " sink=" ^ String.concat " " async
+                     else (match c with NSame true -> "ok nt" | _ -> "ok")))
+       | _ -> "bad row")
+  | _ -> "bad line"
+
 let handle05c (toks : string list) : string =
   match toks with
   | "P" :: rest -> handle_p rest
   | "NQ" :: rest -> handle_nq rest
+  | "S" :: rest -> handle05_s rest
+  | "QI" :: rest -> handle05_qi rest
+  | "QR" :: _ -> "ok"
   | "R" :: mode :: _ :: rest -> handle05_r mode rest
   | "W" :: hf :: _ :: rest -> handle05_w hf rest
   | _ -> handle05 toks
